@@ -516,7 +516,23 @@ class Interp:
             return Obj('config')
         if n.id in ('ValueError', 'TypeError', 'Exception', 'RuntimeError'):
             return Other('exc:' + n.id)
+        const = self.static_constant(self.fi.mod.tree.body, n.id)
+        if const is not None:
+            return self.ev(const)
         self.incomplete(n, f"unbound name {n.id}")
+
+    @staticmethod
+    def static_constant(body, name):
+        """The value expression of a module- or class-level constant: one plain assignment of a literal display."""
+        found = [st for st in body if isinstance(st, (ast.Assign, ast.AnnAssign)) and
+                 any(isinstance(t, ast.Name) and t.id == name
+                     for t in (st.targets if isinstance(st, ast.Assign) else [st.target]))]
+        if len(found) == 1 and found[0].value is not None and \
+                all(isinstance(x, (ast.Constant, ast.Dict, ast.List, ast.Tuple, ast.Set, ast.UnaryOp, ast.USub, ast.UAdd,
+                                   ast.Load, ast.BinOp, ast.Mult, ast.Div, ast.Pow, ast.Add, ast.Sub))
+                    for x in ast.walk(found[0].value)):
+            return found[0].value
+        return None
 
     def ev_Tuple(self, n):
         out = Tup()
@@ -601,6 +617,10 @@ class Interp:
                 return o.attrs[n.attr]
             return self.obj_default_attr(o, n.attr)
         if isinstance(o, Other):
+            if o.d.startswith('class:') and o.d[6:] in self.model.classes:
+                const = self.static_constant(self.model.classes[o.d[6:]].node.body, n.attr)
+                if const is not None:
+                    return self.ev(const)
             return Other(f"{o.d}.{n.attr}")
         if isinstance(o, NoneV):
             raise Raised('AttributeError', n.lineno)
@@ -732,6 +752,24 @@ class Interp:
             if r is None:
                 return None
             return r if isinstance(op, ast.In) else not r
+        # sequences: element-wise, three-valued
+        if isinstance(op, (ast.Eq, ast.NotEq)) and isinstance(a, (Tup, ListV)) and isinstance(b, (Tup, ListV)) and \
+                not getattr(a, 'open', False) and not getattr(b, 'open', False) and \
+                not isinstance(a, DictV) and not isinstance(b, DictV):
+            if type(a) is not type(b) or len(a) != len(b):
+                r = False
+            else:
+                r = True
+                for x, y in zip(a, b):
+                    e = self.compare(x, ast.Eq(), y, n)
+                    if e is False:
+                        r = False
+                        break
+                    if e is None:
+                        r = None
+            if r is None:
+                return None
+            return r if isinstance(op, ast.Eq) else not r
         # strings
         ta, tb = self.as_tstr(a), self.as_tstr(b)
         if isinstance(op, (ast.Eq, ast.NotEq)) and ta is not None and tb is not None:
